@@ -69,6 +69,9 @@ def gcy(x):
     yield 1
 
 
+CALLBACKS = {"k": lambda x: 1}   # a function nothing names: not a module global, not an attribute, in no caller's locals
+
+
 class K:
     def m(self, x):
         return 2
@@ -115,7 +118,7 @@ def uses(x):
 POSITIONS = [
     "arg", "arg2", "ret", "yield", "dictval", "dictkey", "list", "tuple", "set", "method", "static", "classm", "receiver",
     "caller_local", "global_scan", "global_namesake", "prop_ret", "uses", "program_swaps_profiler", "instance_attr_namesake", "uses_random",
-    "ret_untypable", "yield_untypable", "arg_untypable",
+    "ret_untypable", "yield_untypable", "arg_untypable", "unresolvable_callee",
 ]
 FAULT_SITES = ["log1", "log2", "log3", "flush"]
 
@@ -178,6 +181,10 @@ def scenario(M, T, kind: str, pos: str) -> Callable[[], Any]:
             return type(k.p).__name__
         if pos == "uses":
             return M.uses(obj)
+        if pos == "unresolvable_callee":
+            # the callee cannot be found by function lookup; its frame (whose parameter refers to the tripwire) must not
+            # outlive the call all the same
+            return M.CALLBACKS["k"](obj) + M.f(0)
         if pos == "ret_untypable":
             # type collection fails on the returned value; the callee's frame (whose local refers to the tripwire) must not
             # outlive the call
@@ -439,6 +446,16 @@ print("argv0", os.path.basename(sys.argv[0]), sys.argv[1:])
 print("main-is-me", sys.modules["__main__"].__dict__.get("work") is work)
 print("pickled", pickle.loads(pickle.dumps(Rec(3))).v)
 print("work", work(1), file=sys.stderr if "--to-stderr" in sys.argv else sys.stdout)
+# what the interpreter-wide state looks like to the program (tracing must not have rearranged it)
+import datetime, gc, logging, signal, sqlite3
+_c = sqlite3.connect(":memory:")
+_c.execute("create table t (at, n)")
+_c.execute("insert into t values (?, ?)", (datetime.datetime(2020, 1, 2, 3, 4, 5), 1))
+_c.execute("insert into t values (?, ?)", (datetime.date(2020, 1, 2), 2))
+print("sqlite-datetime", _c.execute("select at from t order by n").fetchall())
+print("sqlite-adapters", sorted(k[0].__name__ for k in sqlite3.adapters), sorted(sqlite3.converters))
+print("state", sys.getrecursionlimit(), gc.isenabled(), sys.excepthook is sys.__excepthook__, signal.getsignal(signal.SIGINT) is signal.default_int_handler,
+      logging.getLogger().level, len(logging.getLogger().handlers), sys.getswitchinterval(), sys.displayhook is sys.__displayhook__)
 if "--fail" in sys.argv:
     raise SystemExit(3)
 '''
